@@ -31,6 +31,7 @@ structure RS where
   script : List Attempt := []   -- reversed
   payload : List Nat := []
   sent : Bool := false
+  nd : Bool := false           -- the harness sent this request to the monitor (`mode=nd`) instead of the exact diff
   implCalls : List (Nat × List Nat) := []  -- reversed
   implCtx : List (String × String) := []   -- reversed: (dl=…, ek=…) per call
   implRet : Option (Nat × String × Bool × Bool) := none
@@ -65,7 +66,8 @@ def parseAtt (t : List String) : Option Attempt := do
   let th ← (kv t "th").bind optNat
   let rest ← (kv t "rest").bind optIdList
   let drawn ← kvNat t "drawn"
-  pure { untilCtx := u, dur := dur, ok := ok, perm := perm, throttle := th, rest := rest, drawn := drawn }
+  let sdl ← kvBool t "sdl"
+  pure { untilCtx := u, dur := dur, ok := ok, perm := perm, throttle := th, rest := rest, drawn := drawn, sd := sdl }
 
 def reasonOfString (x : String) : Option Reason :=
   [Reason.ok, .perm, .exhausted, .deadline, .cancelled, .shutdown, .raw, .hang].find? (fun r => r.toString == x)
@@ -102,7 +104,12 @@ def finalizeReq (s : RS) : List String :=
         let want := ((callLine c e script "obs" ct [] k).splitOn " ").drop 4
         if want == [dl, ek] || ek == "ek=?" && want.take 1 == [dl] then none else some s!"call{k}:{dl},{ek}≠{want}")
       let p3 := if ctxLines.isEmpty then "prop pusherctx=ok" else s!"prop pusherctx=FAIL sig=C05/timeout/pusher-context-mismatch {ctxLines}"
-      [p1, p2, p3]
+      -- the library law, evaluated on every draw the real library produced for this script (ties `LibLaw` / `LawAlong`)
+      let p4 := if lawAlongB c 0 script then "prop liblaw=ok" else "prop liblaw=FAIL sig=C05/backoff/library-draw-outside-law"
+      -- equal-instant classification recomputed from the model: only a real tie may go to the monitor instead of the exact diff
+      let p5 := if s.nd && !isTie c e script (send c e s.payload script) then "prop tieclass=FAIL sig=C05/harness/not-a-tie-sent-to-the-monitor"
+        else "prop tieclass=ok"
+      [p1, p2, p3, p4, p5]
     | none, _, _, _ => ["prop retry=FAIL sig=C05/retry/no-return-observed"]
 
 def retryHandler : Handler RS where
@@ -133,7 +140,7 @@ def retryHandler : Handler RS where
         let lines := (tr.calls.zipIdx.map (fun (cl, k) => callLine c e script "obs" cl.t cl.payload k)) ++
           [s!"obs ret {tr.tEnd} {tr.reason.toString} perm={b01 tr.permFlag} sd={b01 tr.sdFlag}"]
         -- equal-instant cases are only monitored (`tr` lines of the harness): no model observation to diff
-        ({ s with payload := pl, sent := true }, if nd then [] else lines)
+        ({ s with payload := pl, sent := true, nd := nd }, if nd then [] else lines)
       | _, _, _ => (s, ["obs bad-op"])
     | _ => (s, ["obs bad-op"])
   onObs := fun s toks =>
